@@ -141,6 +141,8 @@ func (c *caComp) Run(args []string) string {
 	switch args[0] {
 	case "par":
 		return caPar(args)
+	case "rr":
+		return caRR(args)
 	case "new":
 		var opts []cache.Option
 		if thr := atoi(args[1]); thr != 0 {
@@ -156,6 +158,13 @@ func (c *caComp) Run(args []string) string {
 				ex = append(ex, decStr(e))
 			}
 			opts = append(opts, cache.WithExcludedMeta(ex))
+		}
+		// the registration of the optional serverName metadata is package-level state of
+		// `metadata` that outlives a cache: put it back to "not registered" first, so that
+		// a cache created without a server name does not inherit it from an earlier sequence
+		metadata.UnregisterServerNameMetadata()
+		if len(args) > 4 && args[4] != "-" {
+			opts = append(opts, cache.WithServerName(decStr(args[4])))
 		}
 		c.c = cache.New(nil, opts...)
 		c.c.SetClient(c.record)
@@ -309,6 +318,7 @@ type caGen struct {
 	atLeaves []caLeaf // (su) leaves below which a subscription asked for a member of the atomic container
 	org     string // the origin name of this sequence: "oc", or the collector's default "openconfig" (seeded change c06_seed7 special-cased it)
 	allowPO bool // path-level origins allowed (outside the cache's stated contract: no replay monitor)
+	sn      string // server name the cache is created with ("" = none; profile c14 only)
 }
 
 type caLeaf struct {
@@ -636,6 +646,10 @@ func (g *caGen) step() {
 		g.emit("connerr %s %s %d", encStr(t), encStr([]string{"boom", "x y", ""}[r.Intn(3)]), g.now)
 	case x < 93:
 		g.emit("reset %s %d", encStr(t), g.now)
+		if g.sn != "" && r.Intn(2) == 0 {
+			g.emit("meta %s", encStr(t))
+			g.emit("query %s /meta/serverName", encStr(t))
+		}
 	case x < 95:
 		if t == "*" || t == "" {
 			t = "zz" // a whole-target delete for the wildcard/empty name would address every target
@@ -679,7 +693,11 @@ func (g *caGen) malformed(t string) {
 	case 4: // delete of meta alone / everything / empty path
 		g.notiOp(gNoti{ts: g.now, prefix: gPath{target: t}, del: []gPath{[]gPath{mk("meta"), {}, mk("*")}[r.Intn(3)]}})
 	case 5, 6: // metadata path written by the target, right or wrong type
-		name := []string{"sync", "connected", "connectedAddress", "connectError", "targetLeaves", "latestTimestamp", "bogus"}[r.Intn(7)]
+		names := []string{"sync", "connected", "connectedAddress", "connectError", "targetLeaves", "latestTimestamp", "bogus"}
+		if g.sn != "" {
+			names = append(names, "serverName")
+		}
+		name := names[r.Intn(len(names))]
 		g.notiOp(gNoti{ts: ts, prefix: gPath{target: t}, upd: []gUpd{{path: mk("meta", name), val: genVal(r)}}})
 	case 7: // metadata value with the right type
 		name := []string{"sync", "connected"}[r.Intn(2)]
@@ -689,7 +707,11 @@ func (g *caGen) malformed(t string) {
 	case 9: // deeper than a metadata leaf
 		g.notiOp(gNoti{ts: ts, prefix: gPath{target: t}, upd: []gUpd{{path: mk("meta", "sync", "x"), val: gVal{kind: "b", b: true}}}})
 	case 10: // delete of a metadata leaf
-		name := []string{"sync", "connected", "connectError", "targetLeaves", "bogus"}[r.Intn(5)]
+		names := []string{"sync", "connected", "connectError", "targetLeaves", "bogus"}
+		if g.sn != "" {
+			names = append(names, "serverName")
+		}
+		name := names[r.Intn(len(names))]
 		g.notiOp(gNoti{ts: g.now, prefix: gPath{target: t}, del: []gPath{mk("meta", name)}})
 	case 11: // update without value on a data leaf
 		pre, u, _ := g.genUpdate(t)
@@ -743,7 +765,26 @@ func (c *caComp) Gen(r *rand.Rand, tier string) []string {
 		excl = []string{"sync", "connected", "targetLeaves,latestTimestamp"}[r.Intn(3)]
 	}
 	g.allowPO = r.Intn(5) == 0
-	g.emit("new %d %s %s", g.thr, ed, excl)
+	if genProfile == "c14" {
+		// (C14) sometimes a cache created WithServerName: the serverName string metadata is
+		// registered with ResetAction Keep and must survive Reset.  The choice is on the `new`
+		// line; the extra draws are made for this profile only, so the sequences of the other
+		// profiles are what they were.
+		switch r.Intn(5) {
+		case 0, 1:
+			g.sn = "srv1"
+		case 2:
+			g.sn = "x y"
+		}
+		if g.sn != "" && excl == "-" && r.Intn(8) == 0 {
+			excl = "serverName"
+		}
+	}
+	if g.sn != "" {
+		g.emit("new %d %s %s %s", g.thr, ed, excl, encStr(g.sn))
+	} else {
+		g.emit("new %d %s %s", g.thr, ed, excl)
+	}
 	nt := 1 + r.Intn(3)
 	for i := 0; i < nt; i++ {
 		t := []string{"t1", "t2", "dev/3"}[i]
